@@ -16,7 +16,7 @@ import vlib
 
 MODEL = "consumer"
 MODULE = "Model.Consumer"
-TIED = ["C02_single_fetch", "C02_no_overlap", "C02_delivered_in_order", "C02_fetch_offsets_contiguous", "C02_delivered_is_log_segment", "C02_never_idle", "C02_extract_log_segment", "C02_extract_is_segment", "C02_extract_ordered",
+TIED = ["C02_single_fetch", "C02_no_overlap", "C02_delivered_in_order", "C02_fetch_offsets_contiguous", "C02_delivered_is_log_segment", "C02_never_idle", "C02_single_fetch_any_fuel", "C02_no_overlap_any_fuel", "C02_delivered_in_order_any_fuel", "C02_fetch_offsets_contiguous_any_fuel", "C02_delivered_is_log_segment_any_fuel", "C02_never_idle_any_fuel", "C02_extract_log_segment", "C02_extract_is_segment", "C02_extract_ordered",
         "C02_progress_partial"]
 
 
@@ -76,8 +76,8 @@ def monitors(CL, LL, cfg, events, drv, log):
         m = LL.mon_values(drv.values_seen, entries)
         if m:
             res.append(("C02_delivered_is_log_segment (key/value/offset are the broker's)", m))
-        if hasattr(log, "units"):
-            m = LL.mon_giveup(events, steps, log, cfg.maxbuf)
+        if getattr(log, "small", None) is not None:
+            m = LL.mon_giveup(events, steps, log.small, cfg.maxbuf)
             if m:
                 res.append(("C02_delivered_is_log_segment (no omission: giving up only when the message cannot fit)", m))
     return res
@@ -239,6 +239,7 @@ def run(ck):
             d2 = run_case_impl(CL, cfg, small)
             ck.violation({"kind": "monitor", "theorem": thm, "what": what, "cfg": cfg.line(), "events": jsonable(small),
                           "log": [[o, list(k) if k is not None else None, list(v) if v is not None else None] for (o, k, v) in (entries or [])],
+                          "small": sorted((getattr(log, "small", None) or {}).items()),
                           "reset": cfg.reset, "impl_trace": list(d2.trace)[:400], "replay_op": "events"})
         for b in check_codec(CL, drv, events):
             ck.violation({"kind": "message-set decoding: offsets yielded by the codec differ from what the broker served",
@@ -308,6 +309,7 @@ def run(ck):
         if long:
             ck.hist("long_log_runs")
         events, drv, env = LL.honest_run(rnd, cfg, log, store, length, fault=rnd.choice([0.0, 0.08, 0.2]), drain=drain)
+        log.small = env.small
         add("honest", cfg, events, drv, log)
         ck.hist("honest_runs")
         ck.hist("delivered_messages", len(drv.delivered))
@@ -512,6 +514,7 @@ def replay(rp):
                 pass
             log = L()
             log.entries = [(o, None if k is None else bytes(k), None if v is None else bytes(v)) for (o, k, v) in rp["log"]]
+            log.small = dict((int(k), v) for (k, v) in rp.get("small", []))
             evs = [tuple(e) for e in rp["events"]]
             bad = monitors(CL, LL, cfg, evs, drv, log)
         else:
